@@ -826,3 +826,94 @@ def c20_run(p):
 
 
 PROPS['C20'] = (c20_params, c20_run)
+
+
+# =====================================================================================================================
+# C06 (and the concurrent half of C14): two threads on one AdbDevice under every schedule with a bounded number of preemptions
+
+BOUNDS['C06'] = ('sync twin only: 2 threads each running shell() (3 WRTEs per stream) on one AdbDevice, preemption possible at every lock acquire / '
+                 'release of the library; all schedules with <= 1 (quick) / <= 2 (thorough, capped at 6000) preemptions x both starting threads; '
+                 'runs in which the store discards a CLSE for an absent key are attributed to known finding K1 and not counted; '
+                 'plus the sequential C01 / C19 scenario sets')
+
+
+def c06_one(preempt_at, first):
+    """One scheduled run.  -> (failures, steps, k1_hit)"""
+    from sim import sched
+    from sim.harness import Host
+    payloads = {b'A': [b'<A:0 one>', b'<A:1 two>', b'<A:2 three>'], b'B': [b'<B:0 uno>', b'<B:1 dos>', b'<B:2 tres>']}
+    dev = adbd.Adbd(shell=lambda d: payloads[d.split(b':', 1)[1][:1]], maxdata=4096)
+    s = sched.Scheduler(preempt_at=preempt_at, first=first)
+    sched.SchedLock.sched = None
+    real_lock = L['adb_device'].Lock
+    L['adb_device'].Lock = sched.SchedLock
+    try:
+        h = Host(dev, 'sync', stall='empty')
+        h.call('connect', transport_timeout_s=0.5, read_timeout_s=2.0)
+        store = h.d._io_manager._packet_store
+        k1 = []
+        orig_put = store.put
+
+        def put(arg0, arg1, cmd, data):
+            before = len(store)
+            present = (arg0, arg1) in store or store.find(arg0, arg1) is not None
+            orig_put(arg0, arg1, cmd, data)
+            if cmd == b'CLSE' and store.find(arg0, arg1) is None and not present:
+                k1.append((arg0, arg1))
+        store.put = put
+        sched.SchedLock.sched = s
+        for name in ('A', 'B'):
+            s.spawn(name, (lambda n: (lambda: h.d.shell(n, decode=False, transport_timeout_s=0.5, read_timeout_s=2.0)))(name))
+        finished = s.run(timeout=15)
+    finally:
+        sched.SchedLock.sched = None
+        L['adb_device'].Lock = real_lock
+    fails = []
+    if not finished:
+        fails.append(('the two operations must complete (no hang)', 'completion', 'still running after 15 s'))
+    elif s.deadlock:
+        fails.append(('no deadlock between concurrent operations', 'completion', [(t['name'], t['state']) for t in s.threads]))
+    for t in s.threads:
+        want = b''.join(payloads[t['name'].encode()])
+        if t['result'] is not None and t['result'] != ('ok', want):
+            fails.append(('each concurrent shell() must return exactly the payload the device addressed to its own stream', want, t['result']))
+    for v in dev.violations:
+        fails.append(('protocol monitor: ' + v, None, None))
+    if dev.streams:
+        fails.append(('every stream must be closed by exactly one host CLSE', 'no open stream', sorted(dev.streams)))
+    return fails, s.step, bool(k1)
+
+
+def c06_params(budget):
+    for first in (0, 1):
+        base = c06_one((), first)[1]
+        yield {'first': first, 'preempt': []}
+        for i in range(base + 8):
+            yield {'first': first, 'preempt': [i]}
+        if budget == 'quick':
+            # two preemptions early in the operations (stream-id allocation and OPEN): cheap, and where atomicity bugs of _open show
+            for i in range(16):
+                for j in range(i + 1, 24):
+                    yield {'first': first, 'preempt': [i, j]}
+        else:
+            n = 0
+            for i in range(base + 8):
+                for j in range(i + 1, base + 8):
+                    n += 1
+                    if n > 3000:
+                        break
+                    yield {'first': first, 'preempt': [i, j]}
+
+
+K1_RUNS = [0]
+
+
+def c06_run(p):
+    fails, steps, k1 = c06_one(tuple(p['preempt']), p['first'])
+    if k1:
+        K1_RUNS[0] += 1           # the known defect K1 (a CLSE for a stream with nothing parked is discarded) struck in this schedule
+        return []
+    return [fail(p, w, e, o) for (w, e, o) in fails]
+
+
+PROPS['C06'] = (c06_params, c06_run)
